@@ -11,7 +11,7 @@ from harness.common import Check, seed
 
 A = {'a11': '127.0.0.11', 'a12': '127.0.0.12', 'a110': '127.0.0.110'}
 RID = {'r1': '1.1.1.1', 'r2': '2.2.2.2'}
-ROUTE = {'p1': '10.1.0.0/24', 'p2': '10.2.0.0/24', 'p3': '10.3.0.0/24', 'p4': '10.4.0.0/24', 'p5': '10.5.0.0/24', 'p6': '10.6.0.0/24', 'p7': '10.7.0.0/24', 'p8': '10.8.0.0/24', 'p9': '10.9.0.0/24', 'p10': '10.10.0.0/24'}
+ROUTE = {'p1': '10.1.0.0/24', 'p2': '10.2.0.0/24', 'p3': '10.3.0.0/24', 'p4': '10.4.0.0/24', 'p5': '10.5.0.0/24', 'p6': '10.6.0.0/24', 'p7': '10.7.0.0/24', 'p8': '10.8.0.0/24', 'p9': '10.9.0.0/24', 'p10': '10.10.0.0/24', 'p11': '10.11.0.0/24'}
 
 # command id -> text, per API version (v6: `peer <selector> ...`; v4: `neighbor <selector> ...`)
 V6 = {
@@ -22,6 +22,7 @@ V6 = {
     'none2': 'peer 127.0.0.12 router-id 2.2.2.2 announce route 10.4.0.0/24 next-hop 1.2.3.4',
     'two': 'peer [127.0.0.11, 127.0.0.12 peer-as 65002] announce route 10.5.0.0/24 next-hop 1.2.3.4',
     'third': 'peer 127.0.0.110 router-id 2.2.2.2 announce route 10.6.0.0/24 next-hop 1.2.3.4',
+    'staras': 'peer [* peer-as 65002] announce route 10.11.0.0/24 next-hop 1.2.3.4',
     'wdall': 'peer * withdraw route 10.1.0.0/24 next-hop 1.2.3.4',
     'wdone': 'peer 127.0.0.11 withdraw route 10.2.0.0/24 next-hop 1.2.3.4',
     'bogus': 'bogus command that does not exist',
@@ -37,6 +38,7 @@ V4 = {
     'none2': 'neighbor 127.0.0.12 router-id 2.2.2.2 announce route 10.4.0.0/24 next-hop 1.2.3.4',
     'two': 'neighbor 127.0.0.11, neighbor 127.0.0.12 peer-as 65002 announce route 10.5.0.0/24 next-hop 1.2.3.4',
     'third': 'neighbor 127.0.0.110 router-id 2.2.2.2 announce route 10.6.0.0/24 next-hop 1.2.3.4',
+    'staras': 'neighbor * peer-as 65002 announce route 10.11.0.0/24 next-hop 1.2.3.4',
     'wdall': 'withdraw route 10.1.0.0/24 next-hop 1.2.3.4',
     'wdone': 'neighbor 127.0.0.11 withdraw route 10.2.0.0/24 next-hop 1.2.3.4',
     'bogus': 'bogus command that does not exist',
